@@ -50,13 +50,3 @@ spec fn cell_eq(a: Cell, b: Cell) -> bool {
     }
 }
 
-// rpds map under the key order of Cell (assumed)
-pub uninterp spec fn xmap_get(m: Xmap, k: Cell) -> Option<Cell>;
-pub uninterp spec fn xmap_insert(m: Xmap, k: Cell, v: Cell) -> Xmap;
-pub uninterp spec fn xmap_remove(m: Xmap, k: Cell) -> Xmap;
-impl Xmap {
-    #[verifier::external_body] pub fn get(&self, k: &Cell) -> (r: Option<&Cell>)
-        ensures (r is Some) == (xmap_get(*self, *k) is Some), r is Some ==> *r->0 == xmap_get(*self, *k)->0 { unimplemented!() }
-    #[verifier::external_body] pub fn insert_mut(&mut self, k: Cell, v: Cell) ensures *final(self) == xmap_insert(*old(self), k, v) { unimplemented!() }
-    #[verifier::external_body] pub fn remove_mut(&mut self, k: &Cell) -> (r: bool) ensures *final(self) == xmap_remove(*old(self), *k) { unimplemented!() }
-}
